@@ -14,6 +14,12 @@ TARGETS = {
     "statistics/scalarEstimator/normal.go": "C16", "statistics/scalarEstimator/negativeBinomial.go": "C16", "statistics/generic/hmm_baumWelch.go": "C16",
     "avl-tree.go": "C19", "scalar_real64_math.go": "C01", "scalar_real64_derivative.go": "C01",
     "vector_sparse_float64.go": "C11", "matrix_dense_float64.go": "C10", "matrix_dense_float64_math.go": "C03",
+    "statistics/config.go": "C18", "vector_dense_float64.go": "C03", "matrix_sparse_float64.go": "C10", "vector_sparse_float64_math.go": "C03",
+    "statistics/scalarEstimator/mixture.go": "C16", "statistics/generic/mixture_em.go": "C16", "statistics/vectorEstimator/logisticRegression.go": "C16",
+    "statistics/scalarDistribution/pareto.go": "C14", "statistics/scalarDistribution/normal.go": "C14", "statistics/vectorDistribution/t.go": "C14",
+    "special/polygamma.go": "C13", "logarithmetic/logarithmetic.go": "C13", "algorithm/determinant/determinant.go": "C04",
+    "algorithm/matrixInverse/matrixInverse.go": "C04", "algorithm/blahut/blahut.go": "C07", "algorithm/adam/adam.go": "C07",
+    "scalar_real64.go": "C01", "scalar_float64_math.go": "C02", "utility.go": "C18",
 }
 SWAPS = [(r" \+ ", " - "), (r" - ", " + "), (r" \* ", " / "), (r" < ", " <= "), (r" <= ", " < "), (r" > ", " >= "), (r" >= ", " > "),
          (r" == ", " != "), (r"\+\+", "--"), (r"\b1\.0\b", "2.0"), (r"\b0\.5\b", "0.25"), (r"\bi\+1\b", "i"), (r"\bj-1\b", "j"), (r"&&", "||")]
